@@ -737,3 +737,37 @@ Print Assumptions C01_p4_inv_empty.
 Theorem C01_nv_cfg_valid : cfg_valid nv_cfg.
 Proof. exact nv_cfg_valid. Qed.
 Print Assumptions C01_nv_cfg_valid.
+
+(* ---------- last round: the RExn alternative of C01_step_refines is excluded for Copy (and for the overload fallback with a free slot) ---------- *)
+
+(* HashSet(const HashSet&) on a reachable state whose contents fit the largest admissible table (count <= CalcCapacity(2^maxLog); otherwise the real
+   constructor throws length_error as well): the size search ends within its 64 doublings and the fresh table never reports "Hash table is full" *)
+Theorem C01_copy_no_throw :
+  forall B b0 decode upd_bound h cap unlimited wf0 wfThr start next logStart calcCapacity shift maxLog Binv,
+    ModelOK B b0 decode upd_bound cap unlimited wfThr start next logStart shift maxLog Binv ->
+    (forall hc log b, 0 <= log <= maxLog -> 0 <= b < 2 ^ log ->
+       exists p : nat, Z.of_nat p < 2 ^ log /\ path start next hc (2 ^ log) p = b) ->
+    (forall log, 0 <= log <= maxLog -> calcCapacity (2 ^ log) <= cap * 2 ^ log) ->
+    forall s, Reach B b0 decode h cap unlimited wf0 start next maxLog Binv s ->
+      logStart <= maxLog -> maxLog - logStart <= 64 -> count s <= calcCapacity (2 ^ maxLog) ->
+      exists s', step B b0 decode upd_bound h cap unlimited wf0 wfThr start next logStart calcCapacity shift maxLog s OCopy = (s', RUnit).
+Proof. exact copy_no_throw. Qed.
+Print Assumptions C01_copy_no_throw.
+
+Theorem C01_momo_copy_never_throws :
+  forall c (h : Z -> Z), cfg_valid c -> forall s,
+    Reach BS bs0 (decode_fn (c_bound c)) h (c_cap c) (c_unlimited c) (c_wf0 c) start_fn (next_fn (c_probing c)) max_log (Binv_of (c_bound c)) s ->
+    c_logStart c <= max_log -> count s <= calc_capacity (c_pol c) (c_cap c) (2 ^ max_log) ->
+    exists s', step_gen c h s OCopy = (s', RUnit).
+Proof. exact momo_copy_never_throws. Qed.
+Print Assumptions C01_momo_copy_never_throws.
+
+(* overloadIfCannotGrow (bucket-array allocation refused): the insertion into the existing newest table succeeds whenever that table has a free slot *)
+Theorem C01_momo_nomem_insert_never_throws :
+  forall c (h : Z -> Z), cfg_valid c -> forall s kv t r,
+    Reach BS bs0 (decode_fn (c_bound c)) h (c_cap c) (c_unlimited c) (c_wf0 c) start_fn (next_fn (c_probing c)) max_log (Binv_of (c_bound c)) s ->
+    gens s = t :: r -> Z.of_nat (length (flat_map (@items BS) (tbs t))) < c_cap c * 2 ^ tlog t ->
+    exists s', hadd_nomem BS bs0 (upd_fn (c_bound c)) h (c_cap c) (c_unlimited c) (c_wf0 c) (c_wfThr c) start_fn (next_fn (c_probing c))
+                 (c_logStart c) (calc_capacity (c_pol c) (c_cap c)) (shift_fn (c_pol c) (c_cap c)) max_log s kv = Some s'.
+Proof. exact momo_nomem_insert_never_throws. Qed.
+Print Assumptions C01_momo_nomem_insert_never_throws.
